@@ -16,7 +16,9 @@ PROPERTY = "C18"
 CLAUSES = []
 ASSUMPTIONS = [
     "components: two AccSignals - for combine_at_angle also two plain Signals - with the same dt and the same number of samples "
-    "(compute_rotated asserts both), finite float64 (or int64 / list / strided-view variants; narrow integer and single-precision "
+    "(compute_rotated asserts both), finite float64 (or int64 / list / strided-view variants, and int16 / int32 / int8 containers using the "
+    "dtype's full range - gen.narrow_int - with the oracle at the exact integer values, in combine, rotated, same-start (no "
+    "added offset there) and time-match (distinct integers spread over the full range); single-precision "
     "records are handled centrally), 2 <= n <= 300 in the random clauses and 2000..300000 (thorough 2e6) in the mid-range "
     "enumerations, |a| <= 1e9; angles and offsets are finite scalars, |angle| <= 1e4 deg",
     "combination tolerance (per sample k): eps*(4 + 2*|theta_rad|)*(|ns_k|+|we_k|): degrees->radians carries a relative "
@@ -136,9 +138,15 @@ def _mid_sizes(tier, lo, hi_quick, hi_thorough, count, tag):
                   | {top(hi_quick), top(hi_thorough)})
 
 
+NARROW = tuple(gen.NARROW_DTYPES)  # int16 / int32 / int8 containers: raw digitiser counts using the dtype's full range
+_ALLOW = ["int", "list", "int", "list", "view", "negstride", "readonly", "int16", "int32", "int8", "int16"]
+
+
 def _container(spec, a):
     if spec.get("as") == "intlist":
         return [int(v) for v in np.round(a)]  # a list of Python integers (digitiser counts)
+    if spec.get("as") in NARROW:
+        return gen.narrow_int(a, spec["as"])[0]  # scaled to the full range of the dtype, most negative sample = its minimum
     return gen.as_container(spec, a)
 
 
@@ -175,7 +183,7 @@ def _angles(big=1e4):
 @st.composite
 def _pairs(draw, max_n=300):
     n = draw(st.one_of(st.integers(2, 12), st.integers(2, max_n)))
-    kw = dict(min_n=n, max_n=n, small_max=n, allow_zero_runs=False, allow_int=True)
+    kw = dict(min_n=n, max_n=n, small_max=n, allow_zero_runs=False, allow_int=_ALLOW)
     return {"ns": draw(gen.record_specs(**kw)), "we": draw(gen.record_specs(**kw)), "dt": draw(gen.dts(1e-3, 1.0))}
 
 
@@ -202,7 +210,7 @@ def _make_pair(case, ctx):
     ctx.cls("ns=" + case["ns"]["k"], gen.size_class(len(ns)), "comp=" + comp)
     for sp in (case["ns"], case["we"]):
         if sp.get("as"):
-            ctx.cls("as=" + sp["as"])
+            ctx.cls("as=" + sp["as"], "narrow-int" if sp["as"] in NARROW else None)
     return s_ns, s_we, ns, we
 
 
@@ -482,7 +490,7 @@ def _lag_strategy(steps):
                      st.sampled_from([steps - 1, -(steps - 1), 0, 1, -1]))
 
 
-_TM_AS = [None, None, None, "int", "intlist", "list"]
+_TM_AS = [None, None, "int16", "int", "intlist", "list", "int16", "int32"]
 
 
 @st.composite
@@ -535,8 +543,20 @@ def _tm_build(case):
     total = max(lens) + 2 * steps
     rs = np.random.RandomState(case["seed"])
     pool = (len(lens) + 1) * total  # the record + enough independent values for every slave
-    if case["kind"] == "perm":
-        if case.get("as") in _INT_AS:
+    if case.get("rec") is not None:
+        # hand-written cases: the underlying record given explicitly (integers; >= max(lens) + 2*steps samples)
+        rec = np.array(case["rec"], dtype=float)
+        if len(rec) < total or len(np.unique(rec)) != len(rec):
+            raise HarnessError("time-match case: explicit record too short or not distinct")
+        base, other = rec, np.zeros(0)
+    elif case["kind"] == "perm":
+        if case.get("as") in NARROW:
+            # distinct integers spread over the FULL range of the dtype (squares and differences leave it)
+            mult = int(np.iinfo(case["as"]).max) // (pool // 2 + 1)
+            if mult < 1:
+                return None
+            base = (rs.permutation(pool).astype(float) - float(pool // 2)) * mult
+        elif case.get("as") in _INT_AS:
             base = rs.permutation(pool).astype(float) - float(pool // 2)
         else:
             base = rs.permutation(pool).astype(float) * 0.25 - pool * 0.125
@@ -575,6 +595,11 @@ def _tm_build(case):
 
 def _tm_arg(case, a):
     how = case.get("as")
+    if how in NARROW:
+        c = np.array(a, dtype=how)
+        if not np.array_equal(c.astype(float), a):
+            raise HarnessError("time-match generator: values do not fit %s" % how)
+        return c
     if how == "int":
         return np.array(a, dtype=np.int64)
     if how == "intlist":
@@ -602,7 +627,8 @@ def _tm_check(case, ctx):
     ctx.cls("master!=0" if master != 0 else None, "nsig>=3" if nsig >= 3 else None,
             "default-steps" if case["steps"] is None else None, "steps>20" if steps > 20 else None,
             "n>120" if min(lens) > 120 else None, "noisy-copy" if case.get("noise") is not None else None,
-            "as=%s" % case["as"] if case.get("as") else None, "integer-record" if case.get("as") in _INT_AS else None)
+            "as=%s" % case["as"] if case.get("as") else None, "integer-record" if case.get("as") in _INT_AS + NARROW else None,
+            "narrow-int" if case.get("as") in NARROW else None)
     slave_lags = [lags[j] for j in range(nsig) if j != master]
     ctx.cls("lag>0" if any(l > 0 for l in slave_lags) else None, "lag<0" if any(l < 0 for l in slave_lags) else None,
             "lag=0" if any(l == 0 for l in slave_lags) else None,
@@ -678,7 +704,7 @@ def _tm_check(case, ctx):
         oracle="reference model: afterwards slave[k] == (what the slave held at k + lag) (==) on the overlap - for exact copies that is "
                "master[k]; every length unchanged, values one-dimensional numeric ndarrays, master bit-for-bit unchanged",
         require={"master!=0": 0.4, "nsig>=3": 0.4, "lag>0": 0.3, "lag<0": 0.3, "lag=+-(steps-1)": 0.15, "both-signs": 0.08,
-                 "steps>20": 0.06, "n>120": 0.1, "noisy-copy": 0.06, "integer-record": 0.04},
+                 "steps>20": 0.06, "n>120": 0.1, "noisy-copy": 0.06, "integer-record": 0.04, "narrow-int": 0.03},
         min_nontrivial=0.5)
 def time_match(case, ctx):
     _tm_check(case, ctx)
@@ -689,7 +715,7 @@ def time_match(case, ctx):
              "non-zero lag",
         oracle="reference model: as `time-match`; the overlap of a slave ends where either record ends",
         require={"master!=0": 0.4, "nsig>=3": 0.4, "lag>0": 0.3, "lag<0": 0.3, "slave-longer": 0.3, "slave-shorter": 0.3,
-                 "third-shortest": 0.06, "steps>20": 0.06},
+                 "third-shortest": 0.06, "steps>20": 0.06, "narrow-int": 0.03},
         min_nontrivial=0.5)
 def time_match_unequal(case, ctx):
     _tm_check(case, ctx)
@@ -773,7 +799,7 @@ def _ss_cases(draw):
     specs = []
     for j in range(nsig):
         nj = n + (draw(st.integers(0, 30)) if unequal else 0)
-        specs.append(_fix_int_amp(draw(gen.record_specs(min_n=nj, max_n=nj, small_max=nj, allow_zero_runs=False, allow_int=True))))
+        specs.append(_fix_int_amp(draw(gen.record_specs(min_n=nj, max_n=nj, small_max=nj, allow_zero_runs=False, allow_int=_ALLOW))))
     offsets = [draw(st.one_of(st.just(0.0), st.floats(-100.0, 100.0, allow_nan=False), st.integers(-8, 8).map(float)))
                for _ in range(nsig)]
     case = {"sigs": specs, "offsets": offsets, "master": master,
@@ -820,7 +846,7 @@ def same_start(case, ctx):
     args, seen = [], []
     for spec, off in zip(case["sigs"], case["offsets"]):
         arg, a = _seen(spec)
-        if off != 0:
+        if off != 0 and spec.get("as") not in NARROW:  # (a full-range narrow record has no room for an offset; its mean differs anyway)
             if spec.get("as") == "int":
                 arg = arg + int(off)
             elif spec.get("as") == "intlist":
@@ -839,7 +865,7 @@ def same_start(case, ctx):
             "unequal-lengths" if len(set(lens)) > 1 else None)
     for spec in case["sigs"]:
         if spec.get("as"):
-            ctx.cls("as=" + spec["as"])
+            ctx.cls("as=" + spec["as"], "narrow-int" if spec["as"] in NARROW else None)
     if mode == "defaults":
         start, end = 0, 1
         kwargs = {}
@@ -917,7 +943,7 @@ def same_start(case, ctx):
 # dimensions - a blocked, streamed, cached or decimated variant - is invisible to generators that stop at 300 samples)
 
 _MID_DTS = (0.005, 0.01, 0.02, 0.004)
-_MID_AS = [None, None, "int", "list", "view", "intlist"]
+_MID_AS = [None, "int16", "int", "list", "view", "intlist"]
 
 
 def _mid_combine_enum(tier, shard, nshards):
@@ -1016,7 +1042,10 @@ def _mid_tm_enum(tier, shard, nshards):
                 "lags": lags, "kind": kind, "seed": int(h % (2 ** 31 - 1)), "fill": ["window", "rand", "edge"][(h >> 44) % 3],
                 "stype": ["custom", "acc", "mixed"][(h >> 48) % 3], "dt": _MID_DTS[h % 4], "again": True}
         if kind == "perm":
-            case["as"] = _TM_AS[(h >> 52) % 6]
+            case["as"] = _TM_AS[(h >> 52) % 8]
+            pool = (nsig + 1) * (max(case["lens"]) + 2 * steps)
+            if case["as"] == "int16" and pool // 2 + 1 > 32767:
+                case["as"] = "int32"  # (more distinct values than int16 holds)
         elif (h >> 52) % 2:
             case["noise"] = -6 + (h >> 56) % 4
         yield case
